@@ -323,5 +323,11 @@ def build(design) -> Built:
         build_bundle(design, b, built)
     for mname in design["modules"]:
         build_module(design, mname, built)
+    if design.get("steal"):
+        # attributes of one module that are afterwards also added, as they are, to another module (which takes them over)
+        thief = h.Module(name="ZZThief")
+        for mname, attr in design["steal"]:
+            thief.add(built.objs[(mname, attr)])
+        built.thief = thief
     built._top = built.modules[design["top"]]
     return built
